@@ -2,7 +2,7 @@ SPECIFICATION Spec
 CONSTANTS
   Tables <- MCTablesH
   Bytes <- MCBytesH
-  MaxBytes = 9
+  MaxBytes = 6
   MaxLines = 2
   Codes <- MCCodes
   VarRets = {0}
